@@ -197,3 +197,67 @@ func TestVerifReplayC01(t *testing.T) {
 		}
 	}
 }
+
+// TestVerifBoundedC01: standing bounded stand-in. All 8-bit values x all bound pairs of a window x all eight rules are
+// enumerated completely; the wider kinds, floats, strings (1- to 4-byte runes) and slices at bound-1, bound, bound+1.
+func TestVerifBoundedC01(t *testing.T) {
+	if os.Getenv("VERIF_BOUNDED") == "" {
+		t.Skip("bounded stand-in: run by govc")
+	}
+	rules := []string{"to", "oto", "ge", "gt", "le", "lt", "eq", "noeq"}
+	n, viol := 0, 0
+	check := func(c c01Case) {
+		n++
+		if msg, bad := c01Check(c); bad {
+			viol++
+			if viol <= 5 {
+				fmt.Println("BOUNDED-VIOLATION name=C01.window " + msg)
+			}
+		}
+	}
+	w := int64(4)
+	if os.Getenv("VERIF_TIER") == "thorough" {
+		w = 9
+	}
+	for lo := -w; lo <= w; lo++ {
+		for d := int64(-2); d <= 3; d++ {
+			hi := lo + d
+			for _, r := range rules {
+				for x := int64(-128); x <= 127; x++ {
+					check(c01Case{"int8", strconv.FormatInt(x, 10), r, lo, hi})
+				}
+				for x := int64(0); x <= 255; x++ {
+					check(c01Case{"uint8", strconv.FormatInt(x, 10), r, lo, hi})
+				}
+				for _, b := range []int64{lo, hi} {
+					for dx := int64(-1); dx <= 1; dx++ {
+						x := b + dx
+						for _, k := range []string{"int16", "int32", "int64", "int", "uint16", "uint32", "uint64", "uint", "slice"} {
+							check(c01Case{k, strconv.FormatInt(x, 10), r, lo, hi})
+						}
+						for _, fr := range []float64{0, 0.5, -0.5, 0.25} {
+							check(c01Case{"float64", strconv.FormatFloat(float64(x)+fr, 'f', -1, 64), r, lo, hi})
+							check(c01Case{"float32", strconv.FormatFloat(float64(x)+fr, 'f', -1, 64), r, lo, hi})
+						}
+						if x >= 1 && x <= 12 {
+							for _, u := range []string{"a", "é", "中", "😀"} {
+								check(c01Case{"string", strings.Repeat(u, int(x)), r, lo, hi})
+							}
+							check(c01Case{"string", strings.Repeat("a", int(x)-1) + "😀", r, lo, hi})
+						}
+					}
+				}
+				for _, big := range []string{"18446744073709551615", "9223372036854775808", "9223372036854775807"} {
+					check(c01Case{"uint64", big, r, lo, hi})
+					check(c01Case{"uint", big, r, lo, hi})
+				}
+				check(c01Case{"int64", "-9223372036854775808", r, lo, hi})
+				check(c01Case{"int64", "9223372036854775807", r, lo, hi})
+			}
+		}
+	}
+	fmt.Printf("BOUNDED name=C01.window cases=%d bound=all int8 and uint8 values x bounds lo in [-%d,%d], hi-lo in [-2,3] x 8 rules, completely; int16..int64/uint16..uint64/float32/float64/slice/string (1- to 4-byte runes) at bound-1, bound, bound+1 (+-0.25, 0.5 for floats); 64-bit extremes; through Var against the property's oracle\n", n, w, w)
+	if viol > 0 {
+		t.Fatalf("%d violations", viol)
+	}
+}
